@@ -100,6 +100,27 @@ fn is_high(job: &Job) -> bool {
     }
 }
 
+shuttle::thread_local! {
+    /// Codecs a thread keeps for "next time" in thread-local storage, as worker threads of a pool do: they are
+    /// dropped when the thread exits, by the thread-local destructors. One slot is first touched when the thread
+    /// starts (before the crate had a chance to create thread-locals of its own), the other when the first codec is
+    /// parked (after it): platforms destroy thread-locals in different orders, shuttle in order of first use.
+    static PARKED_EARLY: std::cell::RefCell<Vec<Box<dyn std::any::Any>>> = std::cell::RefCell::new(Vec::new());
+    static PARKED_LATE: std::cell::RefCell<Vec<Box<dyn std::any::Any>>> = std::cell::RefCell::new(Vec::new());
+}
+
+static P_PARKED: AtomicU64 = AtomicU64::new(0);
+
+/// Parks `codec` in one of the thread's slots (two jobs in three do).
+fn park(codec: Box<dyn std::any::Any>, coin: u64) {
+    match coin % 3 {
+        0 => PARKED_EARLY.with(|p| p.borrow_mut().push(codec)),
+        1 => PARKED_LATE.with(|p| p.borrow_mut().push(codec)),
+        _ => return,
+    }
+    P_PARKED.fetch_add(1, Ordering::Relaxed);
+}
+
 /// The part of a decode round that may run on another thread: remaining adds + decode + check.
 type Continuation = Box<dyn FnOnce(bool) + Send>;
 
@@ -178,6 +199,8 @@ fn decode_round<E: Engine + Send + 'static, T: RateDecoder<E> + Send + 'static>(
         if moved {
             P_FINISHED_BY_OTHER.fetch_add(1, Ordering::Relaxed);
         }
+        drop(result);
+        park(Box::new(dec), job.lose_seed >> 3);
     })
 }
 
@@ -239,7 +262,7 @@ impl Mk for DefaultEngine {
 }
 
 /// Runs the rounds of one job on this thread; decode halves that are to be handed over go to `tx`.
-fn run_job_typed<E: Mk, Enc: RateEncoder<E>, Dec: RateDecoder<E> + Send + 'static>(job: &Job, tx: &shuttle::sync::mpsc::Sender<Continuation>) {
+fn run_job_typed<E: Mk, Enc: RateEncoder<E> + 'static, Dec: RateDecoder<E> + Send + 'static>(job: &Job, tx: &shuttle::sync::mpsc::Sender<Continuation>) {
     let mut enc = Enc::new(job.k, job.r, job.b, E::mk(), None).unwrap_or_else(|e| violation(format!("encoder new failed: {e:?} ({})", desc(job))));
     for round in 0..job.rounds {
         let recovery = encode_round::<E, Enc>(&mut enc, job, round);
@@ -252,6 +275,7 @@ fn run_job_typed<E: Mk, Enc: RateEncoder<E>, Dec: RateDecoder<E> + Send + 'stati
             cont(false);
         }
     }
+    park(Box::new(enc), job.lose_seed >> 7);
 }
 
 fn run_job(job: &Job, tx: &shuttle::sync::mpsc::Sender<Continuation>) {
@@ -358,6 +382,8 @@ fn run_rs(job: &Job, tx: &shuttle::sync::mpsc::Sender<Continuation>) {
             if moved {
                 P_FINISHED_BY_OTHER.fetch_add(1, Ordering::Relaxed);
             }
+            drop(result);
+            park(Box::new(dec), job2.lose_seed >> 3);
         });
         if job.handover && round == 0 {
             P_HANDOVERS.fetch_add(1, Ordering::Relaxed);
@@ -366,6 +392,7 @@ fn run_rs(job: &Job, tx: &shuttle::sync::mpsc::Sender<Continuation>) {
             cont(false);
         }
     }
+    park(Box::new(enc), job.lose_seed >> 7);
 }
 
 fn scenario() {
@@ -401,6 +428,7 @@ fn scenario() {
         let tx = tx.clone();
         let rx = rx.clone();
         handles.push(shuttle::thread::spawn(move || {
+            PARKED_EARLY.with(|p| p.borrow_mut().clear());
             run_job(&job, &tx);
             drop(tx);
             // finish rounds other threads handed over (objects moved between threads mid-round)
@@ -610,6 +638,7 @@ fn cmd_worker(map: &BTreeMap<String, String>) -> i32 {
         .with("finished_by_other", J::u(P_FINISHED_BY_OTHER.load(Ordering::Relaxed)))
         .with("crowds", J::u(P_CROWDS.load(Ordering::Relaxed)))
         .with("direct_poly", J::u(P_DIRECT_POLY.load(Ordering::Relaxed)))
+        .with("parked", J::u(P_PARKED.load(Ordering::Relaxed)))
         .with("engines", engines);
     let code = match res {
         Ok(()) => 0,
@@ -665,6 +694,23 @@ fn cmd_check(map: &BTreeMap<String, String>) -> i32 {
         let stdout = String::from_utf8_lossy(&out.stdout).to_string();
         let stderr = String::from_utf8_lossy(&out.stderr).to_string();
         let line = stdout.lines().find_map(|l| l.strip_prefix("TSIM-WORKER ")).map(str::to_string);
+        #[cfg(unix)]
+        let signal = std::os::unix::process::ExitStatusExt::signal(&out.status);
+        #[cfg(not(unix))]
+        let signal: Option<i32> = None;
+        if let (None, Some(sig)) = (&line, signal) {
+            // the code under test took the whole process down (abort in a destructor, segfault): a violation
+            // ("no schedule ... panics"), replayed by re-running this worker (a pure function of its arguments)
+            let why = stderr.lines().rev().filter(|l| !l.trim().is_empty()).take(4).collect::<Vec<_>>().into_iter().rev().collect::<Vec<_>>().join(" | ");
+            let j = J::obj()
+                .with("worker", J::us(w))
+                .with("scheduler", J::s(scheduler_name(w)))
+                .with("scheduler_seed", J::u(simcore::prng::mix(&[master, 0xC16, w as u64])))
+                .with("failure", J::s(format!("C16-VIOLATION: process-killed [signal {sig}] while the worker was running its executions: {why}")))
+                .with("failed_at_execution", J::us(per));
+            summaries.push((w, dir, j, 1, stderr));
+            continue;
+        }
         let Some(line) = line else {
             eprintln!("harness error: worker {w} exited with {code} without a summary\n{}", stderr.lines().rev().take(5).collect::<Vec<_>>().join("\n"));
             for w in 0..workers {
@@ -745,7 +791,7 @@ fn cmd_check(map: &BTreeMap<String, String>) -> i32 {
         .with("scheduling_steps", J::u(sum("steps")))
         .with("runs_per_hour", J::u(if wall > 0.0 { (execs as f64 / wall * 3600.0) as u64 } else { 0 }))
         .with("faults_fired", J::obj().with("F12.context_switches", J::u(sum("context_switches"))).with("F12.preemptions", J::u(sum("preemptions"))).with("object_handed_over_mid_round", J::u(sum("handovers"))))
-        .with("probes", J::obj().with("encode_rounds", J::u(sum("encode_rounds"))).with("decode_rounds", J::u(sum("decode_rounds"))).with("round_finished_by_a_different_thread", J::u(sum("finished_by_other"))).with("executions_with_17_to_24_threads", J::u(sum("crowds"))).with("threads_starting_with_a_direct_eval_poly_call", J::u(sum("direct_poly"))).with("threads_per_engine", engines))
+        .with("probes", J::obj().with("encode_rounds", J::u(sum("encode_rounds"))).with("decode_rounds", J::u(sum("decode_rounds"))).with("round_finished_by_a_different_thread", J::u(sum("finished_by_other"))).with("executions_with_17_to_24_threads", J::u(sum("crowds"))).with("threads_starting_with_a_direct_eval_poly_call", J::u(sum("direct_poly"))).with("codecs_left_in_thread_local_storage_at_thread_exit", J::u(sum("parked"))).with("threads_per_engine", engines))
         .with("components", J::obj().with("real", J::Arr(vec![J::s("all codecs, engines and table initialisers of /repo, built through the shadow manifest with --cfg verif_shuttle")])).with("stub", J::Arr(vec![J::s("std::sync::LazyLock replaced by hook H4's shim (a shuttle Once that is fresh in every execution, so every execution runs the real initialisers again under its own schedule; the table built is compared byte for byte with the one a sequential warm-up execution built, which is also the one kept for the process); threads / mpsc / Mutex of the scenario are shuttle's")])))
         .with("exhaustive", J::Bool(false));
     let evidence = J::obj()
@@ -822,6 +868,12 @@ fn cmd_replay(path: &str) -> i32 {
         Ok(o) if o.status.code() == Some(0) => {
             println!("no violation on this tree");
             0
+        }
+        #[cfg(unix)]
+        Ok(o) if std::os::unix::process::ExitStatusExt::signal(&o.status).is_some() => {
+            println!("reproduced by re-running worker {w} for {n} executions: process killed by signal {:?}", std::os::unix::process::ExitStatusExt::signal(&o.status));
+            println!("VIOLATION property=C16 replay={path}");
+            1
         }
         other => {
             eprintln!("harness error: worker re-run failed: {other:?}");
